@@ -105,4 +105,13 @@ def acceptWire (dt : DType F) (j : JVal F) (prev : Option (PVal F)) : Res F :=
   | .error e => .error e
   | .ok v => validate dt v prev
 
+/-- what a `change` request does with its data for a plain parameter (no `write_` method, no check function):
+`_setParameterValue` (dispatcher.py:171-176) imports the value and validates it against the value held, the
+write wrapper (modulebase.py:185-203) validates the result once more, without `previous`; the outcome is stored
+(`announceUpdate(..., validate=False)`) and reported -/
+def changeValue (dt : DType F) (j : JVal F) (held : PVal F) : Res F :=
+  match acceptWire dt j (some held) with
+  | .error e => .error e
+  | .ok r => validate dt r none
+
 end Frappy.Datatypes
